@@ -325,6 +325,7 @@ func initProperties() {
 				use("ARGSWAP", "arguments in order", thriftPkg),
 				use("ADVANCEPOS", "skip helpers advance", thriftPkg),
 				use("ROLEMIX", "key/value type dispatch not mixed", nil),
+				use("RECDEPTH", "recursion budget", thriftPkg),
 			)},
 		{ID: "C20", Title: "Protobuf wire codec agrees with the reference implementation",
 			Decides: "per kind, the descriptor-driven reader and writer use inverse wire primitives matching the spec incl. zig-zag (RWPAIR), unrolled varint stages follow the template (VARINTTEMPLATE), kind/wire tables = spec (KINDTABLE), option/flag arguments are passed in parameter order (ARGSWAP), map entries key=1/value=2 (MAPTAG), speculative lengths finished and writer errors propagated in WriteList/WriteMap/WriteMessageFields (SPECLENPAIR, DROPERR), no size panics (PANICARG).",
